@@ -382,6 +382,55 @@ def fold_select_compares(text):
                 m = re.match(r'\s*(%[\w.]+) = icmp (\w+) (.*?)(, !dbg !\d+)?$', lines[k])
                 if m:
                     cmpdef[m.group(1)] = (m.group(2), m.group(3))
+            # `-E * (n > m)`: a constant times a 0/1 truth value is the conditional expression `(n > m) ? -E : 0`
+            zx = {}
+            for k in range(start, n):
+                m = re.match(r'\s*(%[\w.]+) = zext i1 (%[\w.]+) to (i\d+)(, !dbg !\d+)?$', lines[k])
+                if m:
+                    zx[m.group(1)] = (m.group(2), m.group(3))
+            for k in range(start, n):
+                if not zx:
+                    break
+                m = re.match(r'(\s*)(%[\w.]+) = mul (?:nsw |nuw )*(i\d+) (%[\w.]+|-?\d+), (%[\w.]+|-?\d+)(, !dbg !\d+)?$', lines[k])
+                if not m:
+                    continue
+                a, b = m.group(4), m.group(5)
+                z, kc = (a, b) if a in zx else (b, a)
+                if z in zx and re.match(r'-?\d+$', kc) and zx[z][1] == m.group(3):
+                    lines[k] = f'{m.group(1)}{m.group(2)} = select i1 {zx[z][0]}, {m.group(3)} {kc}, {m.group(3)} 0{m.group(6) or ""}'
+                    changed = True
+            # branch-free tests: `(x == 0) | (y == 0)` computes on 0/1 integers and compares the result with 0; as truth values this
+            # is `a || b` (and `&` is `a && b`)
+            bop = {}
+            for k in range(start, n):
+                m = re.match(r'\s*(%[\w.]+) = (or|and) (i\d+) (%[\w.]+), (%[\w.]+)(, !dbg !\d+)?$', lines[k])
+                if m and m.group(3) != 'i1' and all((x in zx and zx[x][1] == m.group(3)) or x in bop for x in (m.group(4), m.group(5))):
+                    bop[m.group(1)] = (m.group(2), m.group(4), m.group(5))
+            for k in range(start, n):
+                if not bop:
+                    break
+                m = re.match(r'(\s*)(%[\w.]+) = icmp (eq|ne) (i\d+) (%[\w.]+|0), (%[\w.]+|0)(, !dbg !\d+)?$', lines[k])
+                if not m or '0' not in (m.group(5), m.group(6)):
+                    continue
+                v = m.group(5) if m.group(6) == '0' else m.group(6)
+                if v not in bop:
+                    continue
+                ind, res, dbg = m.group(1), m.group(2), m.group(7) or ''
+                tag = res[1:].replace('.', '_')
+                new, cnt = [], [0]
+                def truth(x):
+                    if x in zx:
+                        return zx[x][0]
+                    op_, a_, b_ = bop[x]
+                    ta, tb = truth(a_), truth(b_)
+                    cnt[0] += 1
+                    nm = f'%btf.{tag}.{cnt[0]}'
+                    new.append(f'{ind}{nm} = {op_} i1 {ta}, {tb}')
+                    return nm
+                tv = truth(v)
+                new.append(f'{ind}{res} = and i1 {tv}, true{dbg}' if m.group(3) == 'ne' else f'{ind}{res} = xor i1 {tv}, true{dbg}')
+                lines[k] = '\n'.join(new)
+                changed = True
             # `h = ok ? hdr : NULL; if (h == NULL) ...` : (c ? p : NULL) == NULL  <=>  !c || p == NULL
             psel = {}
             for k in range(start, n):
